@@ -50,6 +50,22 @@ def expect_declarator(i, c):
     return s
 
 
+def render_std(i, c):
+    s = c["std"]
+    n = s["name"]
+    if s["arith"]:
+        return ("static void f%d(void) { printf(\"C %d %%d %%d %%d\\n\", (int)sizeof(%s), (int)_Alignof(%s), (%s)-1 < (%s)0); }\n"
+                % (i, i, n, n, n, n))
+    return ("static void f%d(void) { printf(\"C %d %%d %%d\\n\", (int)sizeof(%s), (int)_Alignof(%s)); }\n" % (i, i, n, n))
+
+
+def expect_std(i, c):
+    s = c["std"]
+    if s["arith"]:
+        return "C %d %d %d %d" % (i, s["sz"], s["al"], 1 if s["sg"] else 0)
+    return "C %d %d %d" % (i, s["sz"], s["al"])
+
+
 def run_decl(ctx, tree):
     q = ctx.quick
     # ---- specifiers
@@ -62,7 +78,13 @@ def run_decl(ctx, tree):
     ctl = ctx.tlc("layout", "DeclSpec", ctx.cfg("layout", "DeclSpec_mc.cfg", Broken=True, MaxLen=4), workers=2, count=False)
     if ctl.ok:
         raise Infra("sensitivity control failed: TLC accepts a wrong declspec switch arm")
-    specs = vt.read_ndjson(out)
+    allrows = vt.read_ndjson(out)
+    std = [r for r in allrows if "std" in r]
+    specs = [r for r in allrows if "std" not in r]
+    if len(std) != 4:
+        raise Infra("stddef table not emitted")
+    c08.compare(ctx, tree, std, render_std, expect_std, "stddef", lambda c_, e, g_: "stddef:%s" % c_["std"]["name"],
+                prelude_extra="#include <stddef.h>\n")
     if len(specs) < 50:
         raise Infra("declspec generator wrote only %d cases" % len(specs))
     ctx.sample(dict(kind="declspec", case=specs[len(specs) // 3], c_source=render_declspec(7, specs[len(specs) // 3])))
